@@ -2,8 +2,26 @@ import sys, os
 sys.path.insert(0, os.path.dirname(os.path.dirname(os.path.abspath(__file__))))
 from symex import sched
 ID = "C15"
-PATTERNS = ["./base/crypto"]
-HARNESS_FILES = ["base/crypto/zz_verif_c15.go"]
+PATTERNS = ["./base/crypto", "./core/client"]
+HARNESS_FILES = ["base/crypto/zz_verif_c15.go", "core/client/zz_verif_c15.go", "core/client/zz_verif_c16.go"]
+CL = "example.com/scion-time/core/client."
+REDIRECT = {
+    "github.com/scionproto/scion/pkg/snet.Fingerprint": CL + "c15Fingerprint",
+    "(*" + CL + "SCIONClient).measureClockOffsetSCION": CL + "c15Measure",
+}
+EXTRA_ENTRIES = sorted(set(REDIRECT.values()))
+
+
+def install_scion(E):
+    """multipath round: snet.Fingerprint and the per-path measurement are redirected to harness functions
+    (distinct concrete fingerprints per path object; arbitrary measurement results)"""
+    from symex.vals import Ptr, Opaque
+    for src, dst in REDIRECT.items():
+        E.intercepts[src] = (lambda dst: lambda E, name, args, ins: E.call_function(dst, args, (), ins))(dst)
+    E.intercepts["(github.com/scionproto/scion/pkg/snet.PathFingerprint).String"] = lambda E, name, args, ins: args[0]
+    E.intercept_prefixes.append(("(*sync/atomic.Pointer[", lambda E, name, args, ins: Ptr.to(E.alloc(None, Opaque("metrics"), name="metrics")) if name.endswith(".Load") else None))
+    from symex import stubs as _st
+    _st.doc("snet.Fingerprint / measureClockOffsetSCION (C15)", install_scion.__doc__)
 P = "example.com/scion-time/base/crypto."
 INSTALL = [sched.install]
 # the rejection loops may reject forever on adversarial bytes: they are cut after 3 draws (termination
@@ -16,10 +34,16 @@ HARNESSES = [
 ]
 for (k, n, th) in [(0, 3, False), (2, 0, False), (2, 2, False), (2, 4, False), (3, 2, False), (3, 5, True), (4, 6, True)]:
     HARNESSES.append({"name": "sample_%d_%d" % (k, n), "fn": P + "VerifC15Sample_%d_%d" % (k, n), "thorough_only": th, "bounds": "k=%d clients, n=%d paths, every random byte string" % (k, n)})
+ASSIGN_CFG = {"time_mode": "ns64", "time_sub_unchecked": True, "default_unwind": 8,
+              "unwind": {P + "randInt31": 3, P + "randInt63": 3, CL + "collectMeasurements": 5, CL + "collectMeasurements$1": 5},
+              "unwind_silent": [P + "randInt31", P + "randInt63"]}
+for (c, p_, th) in [(1, 2, False), (2, 0, False), (2, 1, False), (2, 3, False), (3, 4, True)]:
+    HARNESSES.append({"name": "assign_%d_%d" % (c, p_), "fn": CL + "VerifC15Assign_%d_%d" % (c, p_), "cfg": ASSIGN_CFG, "install": [install_scion], "thorough_only": th,
+                      "bounds": "%d clients, %d offered paths, any subset of clients in interleaved mode with a still-offered or withdrawn previous path, every random byte string, arbitrary measurement results" % (c, p_)})
 ASSUMPTIONS = ["crypto/rand.Read delivers arbitrary bytes (every generator output is covered); rejection loops cut after 3 draws",
                "NOT DECIDED: uniformity of the reservoir sample over subsets (a counting/probability statement) - only the per-draw accepted-range lemma and distinctness are decided",
-               "NOT COVERED: the path-assignment loop of client.MeasureClockOffsetSCION (sticky interleaved paths, filter reset, errNoPath, FTM over the participants)"]
+               "path assignment: fingerprints are distinct per path object, the per-path measurement returns arbitrary results; natively the probed paths are observed through the per-path log records and the per-client reset state"]
 EXPLANATION = ""
 CLAIMED = True
-LEVEL_TEXT = "Bounded model checking of the real random-index and reservoir-sampling code with crypto/rand delivering arbitrary bytes (so every generator output is covered): RandIntn stays in [0, n) for every n, the rejection threshold leaves an accepted range that is a multiple of n minus one value (n <= 2^12), Sample returns min(k, n) picks with every destination and source in range and pairwise distinct final slots."
-LEVEL_NOTE = "NOT decided: uniformity of the sample over subsets (a probability statement; a mutant that draws from the wrong range with every single outcome still legal is not detectable by satisfiability) and the path-assignment loop of MeasureClockOffsetSCION (sticky interleaved paths, filter reset, errNoPath, FTM over participants) - not built; rejection loops cut after 3 draws."
+LEVEL_TEXT = "Bounded model checking of the real random-index and reservoir-sampling code with crypto/rand delivering arbitrary bytes (so every generator output is covered): RandIntn stays in [0, n) for every n, the rejection threshold leaves an accepted range that is a multiple of n minus one value (n <= 2^12), Sample returns min(k, n) picks with every destination and source in range and pairwise distinct final slots; and of the real path assignment of MeasureClockOffsetSCION: participating clients probe pairwise distinct offered paths, min(clients, paths) take part, an interleaved client keeps its previous path while offered and is otherwise reset together with its filter, no path gives errNoPath."
+LEVEL_NOTE = "NOT decided: uniformity of the sample over subsets (a probability statement; a mutant that draws from the wrong range with every single outcome still legal is not detectable by satisfiability) rejection loops cut after 3 draws; the path-assignment loop of MeasureClockOffsetSCION is checked with up to 2 clients / 3 paths (quick) and 3 / 4 (thorough); that the reported offset is the fault-tolerant midpoint over the participants is checked for a single participant only (C02 covers the midpoint itself)."
